@@ -103,6 +103,33 @@ def exl_reader(ctx, er, rule, order_rule):
     ctx.ob(order_rule, "exl|reader-destinations", ver and ent, "the EXLT row sets version; other rows are appended to entries in file order", er.file, er.line)
 
 
+def eq_sides(body, ix):
+    """For every `PartialEq::eq` / `ne` call whose result is branched on: (block of the call, block entered when the two
+    operands are EQUAL, block entered when they differ)."""
+    out = []
+    for bi, t in body.calls():
+        c = t.get("res") or ""
+        last = c.split("::")[-1]
+        if "PartialEq" not in c or last not in ("eq", "ne") or t.get("t", -1) < 0:
+            continue
+        d = t["dest"]["l"]
+        for sb_i, blk in enumerate(body.blocks):
+            tt = blk["t"]
+            if tt["k"] != "switch" or blk["cleanup"]:
+                continue
+            pl = tt["a"].get("c") or tt["a"].get("m") or {}
+            src = pl.get("l")
+            r = ix.resolve(tt["a"])
+            if src != d and not (r[0] == "call" and r[1] is t):
+                continue
+            zero = [int(tg) for v_, tg in tt["arms"] if int(v_) == 0]
+            if not zero or not isinstance(tt.get("else"), int):
+                continue
+            t_true, t_false = tt["else"], zero[0]
+            out.append((bi, t_true, t_false) if last == "eq" else (bi, t_false, t_true))
+    return out
+
+
 def run(ctx):
     prog = ctx.prog
     ctx.decided("writer separators/terminators equal reader split characters for both formats (SEPS)")
@@ -281,6 +308,12 @@ def run(ctx):
                         other = d1 if 2 in d0.params else d0
                         cmp_ok = 3 not in other.params and "#0" in other.names and "#1" not in other.names
             ctx.ob("SETVALUE", "compares-key", cmp_ok, "each pair's key is compared with the requested key", sb.file, sb.line)
+            # ... and the store happens on the side where they are EQUAL
+            sides = eq_sides(sb, ix)
+            st_blocks = [_bi for _bi, _si, s in sb.stmts() if not sb.blocks[_bi]["cleanup"] and s["k"] == "assign" and s["lhs"]["p"] and s["lhs"]["p"][0] == "*" and sb.locals[s["lhs"]["l"]]["ty"].startswith("&mut std::string::String")]
+            if sides and st_blocks:
+                ok_pol = all(any((sb.dominates(tt_, b_) or tt_ == b_) and not (sb.dominates(tf_, b_) or tf_ == b_) for _cb, tt_, tf_ in sides) for b_ in st_blocks)
+                ctx.ob("SETVALUE", "stores-when-equal", ok_pol, "the value is replaced on the branch taken when the pair's key EQUALS the requested key", sb.file, sb.line)
             stores = []
             for _bi, _si, s in sb.stmts():
                 if sb.blocks[_bi]["cleanup"]:
@@ -324,6 +357,26 @@ def run(ctx):
                         if 2 in elem.params and 1 not in elem.params and cap.params == {1} and any(pth and pth[-1] == "#0" for pth in elem.paths) and not any(pth and pth[-1] == "#1" for pth in elem.paths):
                             cmp_ = True
         ctx.ob("QUERIES", "has_key", ok and cmp_, "has_key scans every category's keys and compares with the requested key", hk.file, hk.line)
+        # polarity of the answer: `true` is produced only on the side where a key equals the requested one, `false`
+        # only where the scan is exhausted (loop form); in the adaptor form the closure returns the `eq` result unnegated
+        sides = eq_sides(hk, ix)
+        if sides:
+            t_blocks = [b_ for b_, _si, s_ in hk.stmts() if not hk.blocks[b_]["cleanup"] and s_["k"] == "assign" and s_["lhs"]["l"] == 0 and not s_["lhs"]["p"] and s_["rv"].get("k") == "use" and const_int(s_["rv"]["a"]) == 1]
+            f_blocks = [b_ for b_, _si, s_ in hk.stmts() if not hk.blocks[b_]["cleanup"] and s_["k"] == "assign" and s_["lhs"]["l"] == 0 and not s_["lhs"]["p"] and s_["rv"].get("k") == "use" and const_int(s_["rv"]["a"]) == 0]
+            in_eq = lambda b_: any(hk.dominates(tt_, b_) or tt_ == b_ for _cb, tt_, _tf in sides)  # noqa: E731
+            ctx.ob("QUERIES", "has_key|true-iff-found", bool(t_blocks) and all(in_eq(b_) for b_ in t_blocks) and bool(f_blocks) and not any(in_eq(b_) for b_ in f_blocks), f"has_key returns true at {len(t_blocks)} site(s), all on the key-equal side of the comparison: {all(in_eq(b_) for b_ in t_blocks)}; false at {len(f_blocks)} site(s), none of them there: {not any(in_eq(b_) for b_ in f_blocks)}", hk.file, hk.line)
+        else:
+            neg = False
+            found_eq = False
+            for cb_ in prog.closures_of(hk.name):
+                for _bi, t in cb_.calls():
+                    c = t.get("res") or ""
+                    if "PartialEq" in c and c.split("::")[-1] in ("eq", "ne"):
+                        found_eq = True
+                        neg = neg or c.split("::")[-1] == "ne"
+                neg = neg or any(s_.get("rv", {}).get("k") == "un" and s_["rv"].get("op") == "Not" for _b, _s, s_ in cb_.stmts())
+            neg = neg or any(s_.get("rv", {}).get("k") == "un" and s_["rv"].get("op") == "Not" for _b, _s, s_ in hk.stmts())
+            ctx.ob("QUERIES", "has_key|true-iff-found", found_eq and not neg, f"has_key (adaptor form): the predicate is an unnegated equality: {found_eq and not neg}", hk.file, hk.line)
     else:
         ctx.fail_closed("QUERIES", "cfg::ConfigFile::has_key not found")
     hc = prog.body("cfg::ConfigFile::has_category")
@@ -333,6 +386,18 @@ def run(ctx):
         for _bi, t in hc.calls():
             for a in t["args"]:
                 srcs |= derive(ix, a).names & {"categories", "settings"}
+        negc = any(s_.get("rv", {}).get("k") == "un" and s_["rv"].get("op") == "Not" for _b, _s, s_ in hc.stmts())
+        eqc = False
+        for cb_ in [hc] + list(prog.closures_of(hc.name)):
+            for _bi, t in cb_.calls():
+                c = t.get("res") or ""
+                if "PartialEq" in c and c.split("::")[-1] in ("eq", "ne"):
+                    eqc = eqc or c.split("::")[-1] == "eq"
+                    negc = negc or c.split("::")[-1] == "ne"
+            negc = negc or any(s_.get("rv", {}).get("k") == "un" and s_["rv"].get("op") == "Not" for _b, _s, s_ in cb_.stmts())
+        uses_any = any((t.get("res") or "").split("::")[-1] in ("any", "contains", "find", "position") for _bi, t in hc.calls())
+        if eqc or uses_any:
+            ctx.ob("QUERIES", "has_category|true-iff-listed", (eqc or any((t.get("res") or "").split("::")[-1] == "contains" for _bi, t in hc.calls())) and not negc, f"has_category answers with an unnegated equality / membership test over the category list: equality {eqc}, negated {negc}", hc.file, hc.line)
         ctx.ob("QUERIES", "has_category", srcs == {"categories"}, f"has_category consults {sorted(srcs)}; the category list is the authoritative record of the categories in the file (a category without settings has no map entry)", hc.file, hc.line, sample=True)
     else:
         ctx.fail_closed("QUERIES", "cfg::ConfigFile::has_category not found")
